@@ -520,9 +520,15 @@ def to_text(q, style=MINIMAL, target_texts=None):
     else:
         ts = []
         for t in q.targets:
-            s = to_text_expr(t.expr, style, parent=E('target'))
+            s = to_text_expr(t.expr, style, parent=None)
             if target_texts is not None:
                 target_texts.append(s)
+            # redundant parentheses around the whole target do not belong to the expression
+            for _ in range(2):
+                if not style.extra_parens():
+                    break
+                pad = style.sp() if style.space == 'random' else ''
+                s = '(' + pad + s + pad + ')'
             if t.alias is not None:
                 s += sp() + style.kw('AS') + sp() + style.ident(t.alias)
             ts.append(s)
